@@ -8,27 +8,20 @@
    measurement.  `name <> []`: the code's `if measurement:` treats the empty name as "no filter". *)
 From Coq Require Import List ZArith NArith Bool.
 From TF Require Import Base Query Index DB Spec proofs.IndexDefs proofs.RepP proofs.DBReadP proofs.DBRemoveP
-     proofs.DBStepP proofs.DBRunP proofs.DBSpecP.
+     proofs.DBStepP proofs.DBRunP proofs.DBSpecP proofs.HandleGenP.
+From TF Require gen.HandleGen.
 Import ListNotations.
-
-Definition restrict (name : str) (h : hop) : option op :=
-  match h with
-  | HContains q => Some (Contains q (Some name)) | HCount q => Some (Count q (Some name))
-  | HGet q => Some (Get q (Some name)) | HSearch q srt => Some (Search q (Some name) srt)
-  | HSelect ks q => Some (Select ks q (Some name))
-  | HGetFieldKeys => Some (GetFieldKeys (Some name)) | HGetFieldValues k => Some (GetFieldValues k (Some name))
-  | HGetTagKeys => Some (GetTagKeys (Some name)) | HGetTagValues ks => Some (GetTagValues ks (Some name))
-  | HGetTimestamps => Some (GetTimestamps (Some name))
-  | HInsert ps => Some (Insert ps (Some name)) | HRemove q => Some (Remove q (Some name))
-  | HRemoveAll => Some (DropMeas name)
-  | HUpdate q u => Some (Update q u (Some name))
-  | HUpdateAll u => Some (Update (QNoop AMeas) u (Some name))
-  | HLen | HIter | HAll _ => None
-  end.
 
 Theorem C10_handle_is_restricted : forall E C norm s name h o, restrict name h = Some o ->
   handle_step E C norm s name h = step E C norm s o.
 Proof. intros E C norm s name h o H. destruct h; inversion H; reflexivity. Qed.
+(* the forwarding REGENERATED from tinyflux/measurement.py and the signatures of tinyflux/database.py on every run
+   (gen/HandleGen.v) is the model's: which database operation each handle method becomes, argument by argument *)
+Theorem C10_source_forwarding_is_the_model : forall name h, HandleGen.forward name h = restrict name h.
+Proof. exact gen_forward_eq. Qed.
+Theorem C10_source_insert_multiple_is_the_model : forall name ps,
+  Some (HandleGen.forward_insert_multiple name ps) = restrict name (HInsert ps).
+Proof. exact gen_forward_insert_multiple_eq. Qed.
 Theorem C10_iter_is_restricted : forall E C norm s name,
   handle_step E C norm s name HIter = (s, OPoints (filter (fun p => str_eqb (p_meas p) name) (st_rows s))).
 Proof. reflexivity. Qed.
@@ -48,6 +41,8 @@ Theorem C10_insert_sets_name : forall E C norm s ps name, Inv s -> wf_insert nor
 Proof. exact handle_insert_named. Qed.
 
 Print Assumptions C10_handle_is_restricted.
+Print Assumptions C10_source_forwarding_is_the_model.
+Print Assumptions C10_source_insert_multiple_is_the_model.
 Print Assumptions C10_iter_is_restricted.
 Print Assumptions C10_search_confined.
 Print Assumptions C10_remove_confined.
